@@ -14,7 +14,7 @@ import (
 func init() {
 	register(&propDef{
 		id: "C05", level: "other", run: runC05,
-		explanation: "Decided: (R1) promised post-state: Encode stores file.Header.DataSize, file.Header.CRC (for 14-byte headers, with the bytes MarshalBinary wrote) and file.CRC on every success path (a value-receiver method cannot count), and MarshalBinary computes the header CRC over exactly the 12 bytes written before it; (R2) ordering: the DataSize store takes the buffer length after the last record write and precedes MarshalBinary, nothing is written to the record buffer afterwards; (R3) header-byte cubes: for all 256 local numbers the definition header is 0100xxxx and the data header 0000xxxx (inside the decoder's classes of C13, developer and compressed bits clear), the architecture byte is 0 for LittleEndian and 1 for BigEndian (inverse of the decoder's switch), the definition record layout is header, reserved 0, arch, global number in the chosen order, field count, then (num,size,base) triples; (R4) definition/data size agreement: for every (kind, base, array) class that occurs in the profile table the size declared by writeDefMesg equals the byte count writeField/encodeValue emit (per-kind arm emits one binary.Write of a value of the matching static or table-determined size; the trip counts of the counted loops on writeField's array branch (helpers substituted, clamp max = min(len, length) as side condition) sum to the field's length; encodeString returns exactly `size` bytes); (R5) each writeMesg is preceded by a writeDefMesg of the same definition and the definition's field list is not modified in between. NOT decided: values on the wire equal values in the File; conformance under an independent parser as an observation; a caller-supplied binary.ByteOrder other than the two standard ones (no architecture byte would be written). (R3-no-silent-skip) a function on Encode's call tree that puts bytes out itself has no success return reachable from its entry without passing an output call (a loop whose body writes counts as writing).",
+		explanation: "Decided: (R1) promised post-state: Encode stores file.Header.DataSize, file.Header.CRC (for 14-byte headers, with the bytes MarshalBinary wrote) and file.CRC on every success path (a value-receiver method cannot count), and MarshalBinary computes the header CRC over exactly the 12 bytes written before it; (R2) ordering: the DataSize store takes the buffer length after the last record write and precedes MarshalBinary, nothing is written to the record buffer afterwards; (R3) header-byte cubes: for all 256 local numbers the definition header is 0100xxxx and the data header 0000xxxx (inside the decoder's classes of C13, developer and compressed bits clear), the architecture byte is 0 for LittleEndian and 1 for BigEndian (inverse of the decoder's switch), the definition record layout is header, reserved 0, arch, global number in the chosen order, field count, then (num,size,base) triples; (R4) definition/data size agreement: for every (kind, base, array) class that occurs in the profile table the size declared by writeDefMesg equals the byte count writeField/encodeValue emit (per-kind arm emits one binary.Write of a value of the matching static or table-determined size; the trip counts of the counted loops on writeField's array branch (helpers substituted, clamp max = min(len, length) as side condition) sum to the field's length; encodeString returns exactly `size` bytes); (R5) each writeMesg is preceded by a writeDefMesg of the same definition and the definition's field list is not modified in between. NOT decided: values on the wire equal values in the File; conformance under an independent parser as an observation; a caller-supplied binary.ByteOrder other than the two standard ones (no architecture byte would be written). (R3-no-silent-skip) a function on Encode's call tree that puts bytes out itself has no success return reachable from its entry without passing an output call (a loop whose body writes counts as writing). (R6-omission-base-type) whether a field is left out of the definition is never decided by comparing an element of its value with a fixed constant (base types sharing a Go type differ in their invalid value).",
 		trusted:     []string{"encoding/binary.Write writes exactly the encoded size of a fixed-size value / len of a byte slice", "bytes.Buffer grows without error", "C15 (struct field types match the table) and C13 (decoder header classes)"},
 	})
 }
